@@ -442,6 +442,8 @@ void SGal3TangentBase<_Derived>::fillE(
 
   // small angle approx.
   if (theta_sq < Constants<Scalar>::eps) {
+    // first order: A -> 1/6, the B*W*W term is O(theta^2)
+    E.noalias() += Scalar(1. / 6.) * so3.hat();
     return;
   }
 
